@@ -17,6 +17,7 @@ CHECKS = {
  'C10': ('A', 'exploration', '5', 'after every state-changing event of every run the stored volume is compared with the volumes of the contents, and a seeded panel of observers (get_volume, get_concentration, get_volumes, get_moles, get_substances, Plate.get_volume) is compared with the definition evaluated in exact arithmetic on the abstraction of the real contents', 'deterministic simulation: observers read after every event of seeded histories, compared with an exact model'),
  'C11': ('A', 'exploration', '5', 'post-condition after every dilute / fill_to event on states reached by seeded histories: only the solvent grew, target met in its own unit (model arithmetic on the real result), capacity respected, infeasible targets refused', 'deterministic simulation (history part): post-conditions on reachable states against an exact model'),
  'C17': ('A', 'exploration', '5', 'after every remove event: selected substances absent from every addressed well, every other amount bit-identical, volume equals the remaining contents, wells not addressed identical; per-well differential against Container.remove', 'deterministic simulation: seeded histories with remove events, model filter oracle'),
+ 'C18': ('C', 'exploration', '5', 'the same seeded script (bench history or recipe program with tracking queries) is executed on 3-5 replicas of the library loaded in one process through the real PYPLATE_CONFIG -> pyplate.yaml loader with different moles/volume storage units and internal precision; replicas must agree on every accept/refuse decision, on contents / volume / capacity in user units, on a panel of observer answers, on bake() results and tracking answers, within the coarsest replica\'s rounding; an oracle violation that appears only under a non-shipped configuration is also reported', 'deterministic simulation: N differently configured replicas of the library driven by one seeded script, cross-replica agreement oracle'),
  'C19': ('A', 'exploration', '5', 'every instruction line appended by a container operation and every RecipeStep.instructions of a baked recipe is parsed back to (amount, unit, substance / vessel) and compared, within the displayed precision, with the amounts the simulator recorded for that event (model step / ledger delta); earlier instruction text must survive as a prefix; every call of the two rescaling helpers made during the runs is monitored (value x prefix out must denote the same physical amount as in)', 'deterministic simulation (history part): monitor of the instruction log and of the rescaling helpers against the simulator\'s own record along seeded histories'),
 }
 
@@ -58,6 +59,8 @@ def main():
              'kind_free_text': 'bench: seeded histories of direct-API operations on real objects, mirrored on an exact model'},
             {'name': 'B', 'path': 'sim/engine_b.py', 'serves_properties': ['C08', 'C09', 'C15', 'C16', 'C03', 'C07', 'C17', 'C19'],
              'kind_free_text': 'recipe programs: seeded Recipe API call histories beside an eager reference, a per-step ledger and a life-cycle reference machine'},
+            {'name': 'C', 'path': 'sim/engine_c.py', 'serves_properties': ['C18'],
+             'kind_free_text': 'configuration replicas: the same seeded script on several copies of the library loaded under different pyplate.yaml files'},
             {'name': 'C04', 'path': 'sim/engine_c04.py', 'serves_properties': ['C04'],
              'kind_free_text': 'fault injector: enumeration of all fault instants for a corpus + seeded histories with faults (sim/faults.py)'},
         ],
